@@ -1687,6 +1687,19 @@ def split_conditionals(fn):
         i = 0
         while i < len(lst):
             st = lst[i]
+            if isinstance(st, ast.Assign) and isinstance(st.value, ast.IfExp) and len(st.targets) == 1 and isinstance(st.targets[0], ast.Name) \
+                    and any(isinstance(x, ast.Name) and x.id == st.targets[0].id for x in (st.value.body, st.value.orelse)):
+                # `x = A if c else x` keeps x unless c: `if c: x = A`
+                e = st.value
+                keep_else = isinstance(e.orelse, ast.Name) and e.orelse.id == st.targets[0].id
+                test = e.test if keep_else else _negate(e.test)
+                val = e.body if keep_else else e.orelse
+                a = ast.copy_location(ast.Assign(targets=copy.deepcopy(st.targets), value=val, lineno=st.lineno), val)
+                new = ast.copy_location(ast.If(test=test, body=[a], orelse=[]), st)
+                ast.fix_missing_locations(new)
+                lst[i] = new
+                n += 1
+                continue
             if isinstance(st, ast.Assign) and isinstance(st.value, ast.IfExp):
                 e = st.value
                 a = ast.copy_location(ast.Assign(targets=copy.deepcopy(st.targets), value=e.body, lineno=st.lineno), e.body)
